@@ -556,7 +556,9 @@ def verify_site(live, mm: MetaModel, world: World, sources: HookSources, decl_by
         paths = explore(world, run)
     except Unsupported as u:
         res.unsupported = str(u)
+        res.extra["frame_calls"] = list(getattr(sym, "frame_calls", []))
         return res
+    res.extra["frame_calls"] = list(getattr(sym, "frame_calls", []))
     res.paths = len(paths)
     val = Validity(mm, sym)
     res.validity = val
